@@ -177,7 +177,7 @@ def change_kinds(h, k):
 
 def run(ctx, rep):
     rng = ctx.rng()
-    hist = [gen_history(rng, i) for i in range(ctx.n(160, 6000))]
+    hist = [gen_history(rng, i) for i in range(ctx.n(160, 2000))]
     # the empty change list (a notification that changes nothing) must not disturb the server either
     hist.append({"open_text": "x = 1\n", "notifications": [{"changes": []}, {"changes": [{"range": [0, 0, 0, 0], "text": "y"}]}], "hid": 10 ** 6, "feats": ["empty-change-list"]})
     for h, resp, proc in common.pmap(lambda h: run_history(ctx, h), hist):
